@@ -295,14 +295,14 @@ def _check_one(pc, insts, goal, timeout_ms, use_cvc5, cross=False):
     qf = [p for p in pc if not _has_quant(p)]
     if len(qf) != len(pc):
         s = z3.Solver()
-        s.set("timeout", short)
+        s.set("timeout", timeout_ms)
         for p in qf:
             s.add(p)
         for i in insts:
             if not _has_quant(i):
                 s.add(i)
         s.add(z3.Not(goal))
-        if guarded_check(s, short) == z3.sat and model_ok(s.model(), qf + [z3.Not(goal)]):
+        if guarded_check(s, timeout_ms) == z3.sat and model_ok(s.model(), qf + [z3.Not(goal)]):
             return "failed", "z3(candidate: quantified hypotheses dropped)", s.model(), s.to_smt2(), h
     return "unknown", "z3" + ("+cvc5" if use_cvc5 else ""), None, smt2, h
 
